@@ -226,6 +226,15 @@ def main():
     mon = mod.monitor(ctx)
     known = [k for k in load_known() if k["property"] == pid]
     viols = mon.get("violations", [])
+    broken_suites = [s_["suite"] for s_ in suites if s_.get("disagree", 0) or s_.get("error")]
+    directed_cov = None
+    if broken_suites and hasattr(mod, "directed") and not [v for v in viols if not any(fnmatch.fnmatch(v["key"], k["key"]) for k in known)]:
+        try:
+            dm = mod.directed(ctx, broken_suites)
+            viols = viols + dm.get("violations", [])
+            directed_cov = dm.get("coverage", {})
+        except Exception as e:     # the search is best effort
+            directed_cov = {"error": repr(e)[:300]}
     new, reproduced = [], {}
     for v in viols:
         hit = [k for k in known if fnmatch.fnmatch(v["key"], k["key"])]
@@ -279,6 +288,7 @@ def main():
         "samples": (mon.get("samples", []) + [x for s in suites for x in s.get("samples", [])])[:6] or ["(none)"],
         "no_longer_checks": broken,
         "coqchk": chk,
+        "directed_search_after_broken_correspondence": directed_cov,
         "known_findings_reproduced": [k for k in reproduced],
         "build": {k: v for k, v in b.items() if k != "log"},
     }
